@@ -466,7 +466,7 @@ func (x *exec) applyContract(st *State, fr *Frame, ins ssa.Instruction, ci calle
 	ord := x.callOrdinal(ins, ci.key)
 	// preconditions
 	for i, cl := range fs.Requires {
-		g := env.evalBool(cl.Expr)
+		g := env.evalGoal(cl.Expr)
 		detail := fmt.Sprintf("%s#%d:%s", shortKey(ci.key), ord, clauseName(cl, i))
 		if fr.fn != x.unitFn {
 			detail = "@" + shortKey(FuncKey(fr.fn)) + ":" + detail
